@@ -25,7 +25,7 @@ Qed.
 Definition rw_trailer_obj (d' : list (list N * obj)) (id1 id2 : list N) : obj :=
   ODict (d' ++ [(rw_k_ID, OArr [OStr id1; OStr id2])]).
 
-Lemma rd_trailer_parses_lemma : forall objs ren d' id1 id2 F t pos,
+Lemma rd_trailer_parses_step : forall objs ren d' id1 id2 F t pos,
   (forall id, 0 < ren id) ->
   let o := rw_trailer_obj d' id1 id2 in
   rw_wf o = true -> rw_nd objs o = true ->
